@@ -555,3 +555,82 @@ Proof.
   intros n Hin. destruct (Forall2_In_r _ _ _ _ HF Hin) as ([g|] & _ & Hr); cbn [reg_rel] in Hr; [|contradiction].
   destruct Hr as (c & _ & Hl). now apply live_at_lt in Hl.
 Qed.
+
+Lemma hinsertp_refines st a dst i : R st a ->
+  exists x st', run_hop (HInsertP dst i) st = Ok (x, st') /\ R st' (hstep (HInsertP dst i) a).
+Proof.
+  intros (tid & ri & dt & rs & mregs & Hregs & Hdoc & Hnodes & HT & Ldt & Hnd & Hdead & HF).
+  assert (Hci : match convert_index rs i with Some j => j <= length rs | None => True end /\
+                match convert_index rs i with Some j => pidx (firstn j rs) | None => pidx rs end = Nat.min i (pidx rs)).
+  { unfold convert_index. destruct i as [|i']; [split; [lia|reflexivity]|].
+    destruct (Nat.lt_ge_cases (S i') (pidx rs)) as [Hl|Hl].
+    - destruct (para_slot_some rs (S i') 0 Hl) as (s & Es). rewrite Es.
+      destruct (para_slot_split _ _ _ _ Es) as (pre & P & post & -> & -> & HP & E). cbn [Nat.add].
+      split; [rewrite app_length; cbn; lia|]. rewrite firstn_app_len, E. lia.
+    - rewrite (para_slot_none rs (S i') 0 Hl). split; [exact I|lia]. }
+  destruct Hci as [Hc1 Hc2].
+  destruct (insert_refines st a (convert_index rs i) dst tid ri dt rs mregs Hregs Hdoc Hnodes HT Ldt Hnd Hdead HF Hc1) as (st' & Rn & HR).
+  destruct st as [ts regs0]. cbn [regs trees] in *. subst regs0.
+  eexists. exists st'. split.
+  { cbn [run_hop]. unfold insert_paragraph_m. unfold mbind at 1. unfold mbind at 1.
+    rewrite (runs_get_reg ts (Some (mk_hnd tid []) :: mregs) 0 (mk_hnd tid []) eq_refl).
+    unfold mbind at 1. rewrite (runs_children_of ts (Some (mk_hnd tid []) :: mregs) tid [] _ _ HT eq_refl).
+    cbn [s_tree children]. rewrite Rn. reflexivity. }
+  cbn [hstep tstep2]. rewrite Hdoc, npara_pidx. unfold insert_paragraph. cbn [children]. rewrite Hc2 in HR. exact HR.
+Qed.
+
+(* ------------------------------------------------------------------ one instruction *)
+Lemma with_para_none st k (m : M N) : nth_error (regs st) (preg k) = None \/ nth_error (regs st) (preg k) = Some None ->
+  with_para k m st = Ok (1%N, st).
+Proof. intros H. unfold with_para, mbind, reg_opt. destruct H as [-> | ->]; reflexivity. Qed.
+Lemma with_para_some st k (m : M N) g : nth_error (regs st) (preg k) = Some (Some g) -> with_para k m st = m st.
+Proof. intros H. unfold with_para, mbind, reg_opt. now rewrite H. Qed.
+
+Lemma on_reg_none a k o f : (nth_error (a_regs a) k = None \/ nth_error (a_regs a) k = Some None) -> on_reg a k o f = a.
+Proof. intros [H|H]; unfold on_reg; now rewrite H. Qed.
+
+Lemma para_case {A} (m : nat -> M A) (cont : A -> N) f mkop st a k :
+  para_spec m f -> (forall t n, tstep t (mkop n) = on_para t n f) -> R st a ->
+  exists x st', with_para k (y <- m (preg k) ;; ret (cont y)) st = Ok (x, st') /\ R st' (on_reg a k mkop f).
+Proof.
+  intros Hs Ht HR. destruct (nth_error (regs st) (preg k)) as [[g|]|] eqn:Ek.
+  - destruct (para_op_refines m f mkop st a k g Hs Ht HR Ek) as (x & st' & Rn & HR').
+    exists (cont x), st'. split; [|exact HR']. rewrite (with_para_some _ _ _ g Ek). unfold mbind. rewrite Rn. reflexivity.
+  - exists 1%N, st. split; [apply with_para_none; now right|].
+    destruct HR as (tid & ri & dt & rs & mregs & Hregs & Hrest). destruct Hrest as (Hdoc & Hnodes & HT & Ldt & Hnd & Hdead & HF).
+    rewrite Hregs in Ek. cbn [preg nth_error] in Ek. pose proof (Forall2_nth _ _ _ k HF) as Hn.
+    rewrite on_reg_none; [exists tid, ri, dt, rs, mregs; auto 10|].
+    destruct (nth_error (a_regs a) k) as [[h|]|]; [|now right|now left].
+    destruct Hn as (x0 & Hx & Hr). rewrite Ek in Hx. injection Hx as <-. destruct h; contradiction.
+  - exists 1%N, st. split; [apply with_para_none; now left|].
+    destruct HR as (tid & ri & dt & rs & mregs & Hregs & Hrest). destruct Hrest as (Hdoc & Hnodes & HT & Ldt & Hnd & Hdead & HF).
+    rewrite Hregs in Ek. cbn [preg nth_error] in Ek. pose proof (Forall2_nth _ _ _ k HF) as Hn.
+    rewrite on_reg_none; [exists tid, ri, dt, rs, mregs; auto 10|].
+    destruct (nth_error (a_regs a) k) as [h|]; [|now left].
+    destruct Hn as (x0 & Hx & Hr). rewrite Ek in Hx. discriminate.
+Qed.
+
+Lemma para_spec_set key v : para_spec (fun r => paragraph_set r key v) (fun cs => para_set cs key v).
+Proof. intros ts rs r tid ri T p kd cs H1 H2 H3. destruct (paragraph_set_spec ts rs r tid ri T p kd cs key v H1 H2 H3) as (ts' & F & ?). exists tt, ts', F. assumption. Qed.
+Lemma para_spec_insert key v : para_spec (fun r => paragraph_insert r key v) (fun cs => para_insert cs key v).
+Proof. intros ts rs r tid ri T p kd cs H1 H2 H3. destruct (paragraph_insert_spec ts rs r tid ri T p kd cs key v H1 H2 H3) as (ts' & F & ?). exists tt, ts', F. assumption. Qed.
+Lemma para_spec_remove key : para_spec (fun r => paragraph_remove r key) (fun cs => para_remove cs key).
+Proof. intros ts rs r tid ri T p kd cs H1 H2 H3. destruct (paragraph_remove_spec ts rs r tid ri T p kd cs key H1 H2 H3) as (ts' & F & ?). exists tt, ts', F. assumption. Qed.
+Lemma para_spec_rename old new : para_spec (fun r => paragraph_rename r old new) (fun cs => fst (para_rename cs old new)).
+Proof. intros ts rs r tid ri T p kd cs H1 H2 H3. destruct (paragraph_rename_spec ts rs r tid ri T p kd cs old new H1 H2 H3) as (ts' & F & ?). eexists _, ts', F. eassumption. Qed.
+
+(* (1)+(2)+(3): no panic, the document is the pure model's, every handle denotes what [hstep] says *)
+Theorem hop_refines o st a : R st a ->
+  exists x st', run_hop o st = Ok (x, st') /\ R st' (hstep o a).
+Proof.
+  intros HR. destruct o; cbn [run_hop hstep].
+  - now apply hpara_refines.
+  - now apply hnewpara_refines.
+  - apply (para_case (fun r => paragraph_set r key v) (fun _ => 0%N)); [apply para_spec_set|reflexivity|exact HR].
+  - apply (para_case (fun r => paragraph_insert r key v) (fun _ => 0%N)); [apply para_spec_insert|reflexivity|exact HR].
+  - apply (para_case (fun r => paragraph_remove r key) (fun _ => 0%N)); [apply para_spec_remove|reflexivity|exact HR].
+  - apply (para_case (fun r => paragraph_rename r old new) (fun b : bool => if b then 2%N else 3%N)); [apply para_spec_rename|reflexivity|exact HR].
+  - now apply hadd_refines.
+  - now apply hinsertp_refines.
+  - now apply hremovep_refines.
+Qed.
